@@ -97,6 +97,7 @@ structure D where
   svc : Svc := Svc.init
   recv : Option Recv := none
   sys : Sys Nat := Sys.init
+  hrecv : Option HRecv := none
 
 def showHF (h : HF) : String := s!"last={h.lastHash}/{h.lastNo} req={h.reqCount}"
 
@@ -132,6 +133,52 @@ def showRecv (r : Recv) : String :=
   s!"st={st} got={r.got.length}"
 
 def bad (d : D) : D × String := (d, "bad-op")
+
+/-! ### the exchanges below the finder -/
+
+def pStatus : String → Option WStatus
+  | "ok" => some .ok | "notfound" => some .notFound | "failed" => some .failed | _ => none
+
+def showStatus : WStatus → String
+  | .ok => "ok" | .notFound => "notfound" | .failed => "failed"
+
+/-- `a:b` pairs, comma separated. -/
+def pPairs (s : String) : Option (List (Nat × Nat)) :=
+  (commas s).mapM fun w =>
+    match w.splitOn ":" with
+    | [a, b] => do pure (← a.toNat?, ← b.toNat?)
+    | _ => none
+
+def lookup (l : List (Nat × Nat)) (k : Nat) : Option Nat := (l.find? (·.1 == k)).map (·.2)
+
+/-- `tok/no` or `nil`. -/
+def pReplyId (s : String) : Option (Option (Nat × Nat)) :=
+  if s == "nil" then some none
+  else match s.splitOn "/" with
+    | [h, n] => do pure (some (← h.toNat?, ← n.toNat?))
+    | _ => none
+
+def showFinderId : FinderOutId → String
+  | .ancestor h n => s!"ancestor:{h}/{n}"
+  | .noAncestor => "noancestor"
+  | .alreadyDone => "done"
+  | .timeout => "timeout"
+  | .localErr => "localerr"
+  | .remoteErr => "remoteerr"
+
+def showHRecvErr : HRecvErr → String
+  | .remotePeerFail => "remotepeerfail" | .missingHash => "missinghash" | .wrongHash => "wronghash" | .tooMany => "toomany"
+
+def showHRecv (r : HRecv) : String :=
+  let st := match r.status with | .waiting => "waiting" | .canceled => "canceled" | .finished => "finished"
+  s!"st={st} got={r.got.length}"
+
+/-- `tok:1` (a hash of block-id length) or `tok:0`. -/
+def pHParts (s : String) : Option (List (Nat × Bool)) :=
+  (commas s).mapM fun w =>
+    match w.splitOn ":" with
+    | [a, b] => do pure (← a.toNat?, ← pBool b)
+    | _ => none
 
 def stepSt (d : D) (e : Ev) : D × String :=
   match d.st with
@@ -274,6 +321,63 @@ def stepLine (d : D) (line : String) : D × String :=
         | .rsp bs => s!"rsp:{showBlks bs}"
         | .rspErr e => s!"err:{showRecvErr e}"
       ({ d with recv := some r' }, s!"{os} {showRecv r'}")
+    | _, _, _, _, _ => bad d
+  -- serving node: findAncestor on a chain DB given as `id:height` (everything stored) and `height:id` (main chain)
+  | ["fanc", store, main, hashes] =>
+    match pPairs store, pPairs main, pNats hashes with
+    | some store, some main, some hashes =>
+      match findAncestor (lookup store) (lookup main) hashes with
+      | none => (d, "none")
+      | some (h, n) => (d, s!"some:{h}/{n}")
+    | _, _, _ => bad d
+  -- serving node: the getAncestor handler (status and body of the response)
+  | ["serveanc", answered, found] =>
+    match pBool answered, pReplyId found with
+    | some answered, some found =>
+      let r := serveAncestor answered found
+      (d, s!"{showStatus r.1} {r.2.1}/{r.2.2}")
+    | _, _ => bad d
+  -- requesting node: AncestorReceiver / BlockHashByNoReceiver
+  | ["arecv", timedOut, st, h, n] =>
+    match pBool timedOut, pStatus st, h.toNat?, n.toNat? with
+    | some timedOut, some st, some h, some n =>
+      match ancRecv timedOut st h n with
+      | none => (d, "nothing")
+      | some none => (d, "rsp:nil")
+      | some (some (h, n)) => (d, s!"rsp:{h}/{n}")
+    | _, _, _, _ => bad d
+  | ["hbnrecv", timedOut, st, h] =>
+    match pBool timedOut, pStatus st, h.toNat? with
+    | some timedOut, some st, some h =>
+      match hbnRecv timedOut st h with
+      | .nothing => (d, "nothing")
+      | .hash h => (d, s!"hash:{h}")
+      | .err => (d, "err")
+    | _, _, _ => bad d
+  -- the finder with ids: replies `tok/no`, local main-chain ids by height
+  | ["finderi", fo, best, target, replies, pat, lm] =>
+    match pBool fo, best.toNat?, target.toNat?, (commas replies).mapM pReplyId, pNats lm with
+    | some fo, some best, some target, some replies, some lm =>
+      match mkProbe best (pPat pat) with
+      | some probe => (d, showFinderId (finderId fo best target (fun n => if n ≤ best then lm[n]? else none) replies probe))
+      | none => bad d
+    | _, _, _, _, _ => bad d
+  -- hash receiver
+  | ["hrecv", "new", cnt] =>
+    match cnt.toNat? with
+    | some cnt =>
+      let r : HRecv := ⟨cnt, [], .waiting⟩
+      ({ d with hrecv := some r }, showHRecv r)
+    | none => bad d
+  | ["hrecv", "part", timedOut, statusOk, hasNext, hashes] =>
+    match d.hrecv, pBool timedOut, pBool statusOk, pBool hasNext, pHParts hashes with
+    | some r, some timedOut, some statusOk, some hasNext, some hashes =>
+      let (r', o) := r.receive ⟨timedOut, statusOk, hashes, hasNext⟩
+      let os := match o with
+        | .nothing => "nothing"
+        | .rsp hs c => s!"rsp:{showNats hs}:{c}"
+        | .rspErr e => s!"err:{showHRecvErr e}"
+      ({ d with hrecv := some r' }, s!"{os} {showHRecv r'}")
     | _, _, _, _, _ => bad d
   | _ => bad d
 
